@@ -129,6 +129,25 @@ func tLt(a, b Term) Term {
 
 func sArr(s Term) Term { return fieldOf(s, "mkSlice", 0, "sarr", SInt) }
 func sOff(s Term) Term { return fieldOf(s, "mkSlice", 1, "soff", SInt) }
+
+// sIdx is the position of element i of a slice with offset off inside its backing array.  It is an opaque function
+// with the defining axiom sidx(o, i) = o + i: quantified contracts are instantiated by matching element reads, and a
+// syntactic "+" inside the read (rewritten at will by the solver's arithmetic normaliser) makes that matching fail.
+func (te *TypeEnv) sIdx(off, i Term) Term {
+	if off.S == "0" {
+		return i
+	}
+	if _, ok := parseNum(off.S); ok {
+		if _, ok := parseNum(i.S); ok {
+			return tAdd(off, i)
+		}
+	}
+	te.pre.Add("fn:sidx", "(declare-fun sidx (Int Int) Int)")
+	te.pre.Add("ax:sidx", "(assert (forall ((o Int) (i Int)) (! (= (sidx o i) (+ o i)) :pattern ((sidx o i)))))")
+	// element j of s[i:] is element i+j of s: re-associate so that facts stated about s[k] match
+	te.pre.Add("ax:sidx#assoc", "(assert (forall ((o Int) (i Int) (j Int)) (! (= (sidx (sidx o i) j) (sidx o (+ i j))) :pattern ((sidx (sidx o i) j)))))")
+	return Term{app("sidx", off.S, i.S), SInt}
+}
 func sLen(s Term) Term { return fieldOf(s, "mkSlice", 2, "slen", SInt) }
 func sCap(s Term) Term { return fieldOf(s, "mkSlice", 3, "scap", SInt) }
 
@@ -261,7 +280,7 @@ func (fr *Frame) execInstr(ins ssa.Instruction) {
 		case *types.Slice:
 			s := fr.val(ins.X)
 			fr.safe("index", tAnd(tLe(tInt(0), idx), tLt(idx, sLen(s))), ins, "slice index in range")
-			loc := te.ElemLoc(xt.Elem(), sArr(s), tAdd(sOff(s), idx))
+			loc := te.ElemLoc(xt.Elem(), sArr(s), te.sIdx(sOff(s), idx))
 			fr.locs[ins] = loc
 			if loc.Kind == "obj" {
 				fr.vals[ins] = loc.Base
@@ -474,7 +493,10 @@ func (fr *Frame) newRef(hint string) Term {
 	vc := fr.vc
 	r := vc.fresh(hint, SInt)
 	var parts []string
-	parts = append(parts, fmt.Sprintf("(> %s 0)", r.S), fmt.Sprintf("(not (old_alloc %s))", r.S))
+	// allocation advances the clock: r is younger than everything that exists so far
+	now := vc.define("clk!t", tAdd(fr.cur.Get("clk", SInt), tInt(1)))
+	fr.cur.Set("clk", now)
+	parts = append(parts, fmt.Sprintf("(> %s 0)", r.S), fmt.Sprintf("(= (atime %s) %s)", r.S, now.S), fmt.Sprintf("(not (old_alloc %s))", r.S))
 	vc.sess.te.pre.Add("fn:subtag", "(declare-fun subtag (Int) Int)")
 	parts = append(parts, fmt.Sprintf("(= (subtag %s) 0)", r.S))
 	for _, a := range vc.allocs {
@@ -809,7 +831,7 @@ func (fr *Frame) execSlice(ins *ssa.Slice) {
 		} else {
 			fr.safe("slice-bounds", tAnd(tLe(tInt(0), lo), tLe(lo, hi), tLe(hi, sCap(s))), ins, "slice bounds in range")
 		}
-		fr.setVal(ins, mkSlice(sArr(s), tAdd(sOff(s), lo), tSub(hi, lo), tSub(mx, lo)))
+		fr.setVal(ins, mkSlice(sArr(s), fr.te().sIdx(sOff(s), lo), tSub(hi, lo), tSub(mx, lo)))
 	case *types.Basic: // string
 		s := fr.val(ins.X)
 		lo = tInt(0)
@@ -918,8 +940,9 @@ func (fr *Frame) strOfBytes(st *State, s Term) Term {
 	te := fr.te()
 	te.pre.Add("fn:s_ofbytes", "(declare-fun s_ofbytes ((Array Int Int) Int Int) Str)")
 	te.pre.Add("ax:s_ofbytes", "(assert (forall ((a (Array Int Int)) (o Int) (n Int)) (! (=> (>= n 0) (= (s_len (s_ofbytes a o n)) n)) :pattern ((s_ofbytes a o n)))))")
-	te.pre.Add("ax:s_ofbytes#2", "(assert (forall ((a (Array Int Int)) (o Int) (n Int) (i Int)) (! (=> (and (<= 0 i) (< i n)) (= (s_at (s_ofbytes a o n) i) (select a (+ o i)))) :pattern ((s_at (s_ofbytes a o n) i)))))")
-	h := st.Get("A_Int", arraySort(SInt, arraySort(SInt, SInt)))
+	te.pre.Add("ax:s_ofbytes#2", "(assert (forall ((a (Array Int Int)) (o Int) (n Int) (i Int)) (! (=> (and (<= 0 i) (< i n)) (= (s_at (s_ofbytes a o n) i) (select a (sidx o i)))) :pattern ((s_at (s_ofbytes a o n) i)))))")
+	te.sIdx(Term{"o", SInt}, Term{"i", SInt}) // make sure sidx and its axioms are declared
+	h := st.Get(te.elemHeap(types.Typ[types.Uint8]), arraySort(SInt, arraySort(SInt, SInt)))
 	return Term{app("s_ofbytes", tSelect(h, sArr(s)).S, sOff(s).S, sLen(s).S), SStr}
 }
 
